@@ -382,6 +382,73 @@ def judge_backend_formats(res, st, user, seq):
     res["nontrivial"].add(h64(case))
 
 
+def _fmt_class():
+    from collections import defaultdict
+    from sigma.processing.pipeline import ProcessingPipeline
+
+    cls = V.make_backend_class(K, fresh=True)
+    cls.backend_processing_pipeline = mk(1)
+    cls.formats = {"default": "d", "alt": "a", "bare": "b"}
+    cls.output_format_processing_pipeline = defaultdict(ProcessingPipeline, {"default": mk(3), "alt": mk(4)})
+    for f in ("alt", "bare"):
+        setattr(cls, "finalize_query_" + f, lambda self, rule, query, index, state: query)
+        setattr(cls, "finalize_output_" + f, lambda self, queries: queries)
+    return cls
+
+
+def judge_backend_entry(res, st, user, fmt):
+    """convert_rule(rule, format) on a backend object that has not converted anything yet composes the pipeline of THAT format"""
+    from sigma.rule import SigmaRule
+
+    case = {"kind": "backend-convert_rule-first", "user": user, "format": fmt}
+    res["evaluations"] += 1
+    st.history()
+    st.transition(1)
+    outs = []
+    for explicit_init in (False, True):
+        b = _fmt_class()(mk(user) if user else None)
+        try:
+            if explicit_init:
+                b.init_processing_pipeline(fmt)
+            qs = b.convert_rule(SigmaRule.from_dict(copy.deepcopy(RULE_D)), fmt)
+            lp = b.last_processing_pipeline
+            outs.append(("ok", qs, sorted(lp.applied_ids), lp.vars.get("output_format")))
+        except Exception as e:
+            outs.append(("err", type(e).__name__, str(e)[:200]))
+    st.state(["entry", user, fmt])
+    res["outcomes"].add(h64(outs[0]))
+    res["nontrivial"].add(h64(case))
+    if outs[0] != outs[1]:
+        add_violation(res, "backend:convert_rule-on-fresh-backend-uses-other-format-pipeline", case, outs[1], outs[0])
+
+
+def judge_backend_empty(res, st, user, fmt, how):
+    """no query is emitted (empty collection / every rule fails and errors are collected): the finalizers still run once, in order, on the empty list"""
+    from sigma.collection import SigmaCollection
+    from sigma.rule import SigmaRule
+
+    case = {"kind": "backend-no-queries", "user": user, "format": fmt, "how": how}
+    res["evaluations"] += 1
+    st.history()
+    st.transition(1)
+    b = _fmt_class()(mk(user) if user else None, collect_errors=True)
+    rules = [] if how == "empty" else [SigmaRule.from_dict({"title": "bad", "logsource": {"category": "c"}, "detection": {"sel": {"f|expand": "%undefined%"}, "condition": "sel"}})]
+    try:
+        got = b.convert(SigmaCollection(rules), fmt)
+    except Exception as e:
+        got = ("err", type(e).__name__, str(e)[:200])
+    order = [1] + ([user] if user else []) + {"default": [3], "alt": [4], "bare": []}[fmt]
+    exp = []
+    for i in order:
+        for f in pdict(i, **VARIANTS[i]).get("finalizers", []):
+            exp = f["prefix"] + f["separator"].join(exp) + f["suffix"]
+    st.state(["empty", user, fmt, how])
+    res["outcomes"].add(h64(got))
+    res["nontrivial"].add(h64(case))
+    if got != exp:
+        add_violation(res, "backend:finalizers-not-run-on-empty-output", case, exp, got)
+
+
 def plan(tier, seed):
     return ["plus", "plus-pre", "sum", "resolver", "backend"]
 
@@ -434,6 +501,11 @@ def run_shard(shard, tier, seed):
     else:
         for user in (None, 2, 4):
             judge_backend(res, st, user)
+        for user in (None, 2, 5):
+            for fmt in ("default", "alt", "bare"):
+                judge_backend_entry(res, st, user, fmt)
+                for how in ("empty", "all-failed"):
+                    judge_backend_empty(res, st, user, fmt, how)
         for user in (None, 2):
             for k in (1, 2, 3):
                 for seq in itertools.product(("default", "alt", "bare"), repeat=k):
